@@ -204,6 +204,10 @@ def gen_world(seed, classes=ALL_CLASSES, want_constraints=0.3, node_p=0.25, tag=
             ign = [rng.choice(inner_nodes)]
         else:
             ign = [[e[0], e[1]] for e in graph["edges"] if rng.random() < 0.2][:2]
+        if ign and not node_mode and len(ign) >= len([e for e in graph["edges"] if e[2] is not None]):
+            ign = []        # at least one weighted element stays (an all-ignored input is outside every model's domain)
+        if ign and node_mode and len(ign) >= len([x for x in graph.get("node_weights", []) if x[1] is not None]):
+            ign = []
         if ign:
             args["elements_to_ignore"] = ign
     # additional starts / ends
